@@ -1,6 +1,6 @@
 // Repro for findings/xref_section_widths.md.
 // Append this file to pdf/src/parser/parse_xref.rs of a scratch copy of /repo (the functions are private) and run
-//   CARGO_TARGET_DIR=/verif/.cache/native-target cargo test --offline -p pdf --lib verif_xref_section_widths
+//   CARGO_TARGET_DIR=/tmp/xrefstm_target cargo test --offline -p pdf --lib verif_xref_section_widths
 // On the pinned tree: 3 tests fail (2 panics "attempt to add/multiply with overflow", 1 disproportionate result).
 // With findings/xref_section_widths_fix.diff applied: all pass.
 #[cfg(test)]
